@@ -8,11 +8,14 @@
   there.  Here every file operation of main.rs takes the path text it is given in the Rust code
   and resolves it again, as the system calls do:
 
-    fs::canonicalize(p)      `canonicalize`    all links followed; fails unless everything exists
+    fs::canonicalize(p)      `canonicalize`    all links followed; fails unless everything exists:
+                                               NotFound, or another error (ELOOP, ENOTDIR)
     fs::metadata(p)          `metadataIsFile`  follows links
     File::create(p)          `create`          open(O_WRONLY|O_CREAT|O_TRUNC): follows links — through
                                                a dangling link it creates the link's TARGET; a new
                                                file gets a new inode; an existing one is truncated
+    OpenOptions…create_new   `createNew`       open(O_WRONLY|O_CREAT|O_EXCL): fails if the name has any
+                                               entry (a final link is not followed); new inode
     write_all / flush        `write`           on the open handle (inode), under the size limit
     fs::rename(a, b)         `rename`          final components NOT followed: the entry `b` — a
                                                regular file, a symbolic link, nothing — is replaced
@@ -115,13 +118,22 @@ def listDir (fs : Fs) (d : Loc) : List Name :=
 
 /-! ### Path resolution -/
 
+/-- Why a resolution failed before its last component. -/
+inductive Errno where
+  /-- ENOENT: a directory on the way does not exist (`io::ErrorKind::NotFound`) -/
+  | noent
+  /-- ENOTDIR: a component on the way is a file or a device -/
+  | notdir
+  /-- ELOOP: more links than may be followed -/
+  | loop
+  deriving DecidableEq, Repr
+
 inductive Res where
   /-- the path names this existing entry -/
   | found (loc : Loc) (e : Entry)
-  /-- everything but the last component exists: directory `dir` has no entry `name` -/
+  /-- everything but the last component exists: directory `dir` has no entry `name` (ENOENT) -/
   | missing (dir : Loc) (name : Name)
-  /-- ENOENT / ENOTDIR in the middle of the path, or too many links (ELOOP) -/
-  | error
+  | error (e : Errno)
   deriving DecidableEq, Repr
 
 /-- One pass over the components from directory `cur`; `k` continues after a link has been
@@ -131,17 +143,17 @@ def walkWith (k : Loc → List Name → Res) (m : Ents) (followLast : Bool) : Lo
   | cur, [] => .found cur .dir
   | cur, n :: rest =>
     match entryAt m (cur ++ [n]) with
-    | none => if rest.isEmpty then .missing cur n else .error
+    | none => if rest.isEmpty then .missing cur n else .error .noent
     | some .dir => walkWith k m followLast (cur ++ [n]) rest
     | some (.link t) =>
       if rest.isEmpty && !followLast then .found (cur ++ [n]) (.link t)
       -- a relative target is resolved in the directory that holds the link
       else k (if t.abs then [] else cur) (t.comps ++ rest)
-    | some e => if rest.isEmpty then .found (cur ++ [n]) e else .error
+    | some e => if rest.isEmpty then .found (cur ++ [n]) e else .error .notdir
 
 /-- Resolution that may follow `fuel` links. -/
 def walk (m : Ents) (followLast : Bool) : Nat → Loc → List Name → Res
-  | 0 => walkWith (fun _ _ => .error) m followLast
+  | 0 => walkWith (fun _ _ => .error .loop) m followLast
   | fuel + 1 => walkWith (walk m followLast fuel) m followLast
 
 def startOf (fs : Fs) (p : Path) : Loc := if p.abs then [] else fs.cwd
@@ -151,11 +163,22 @@ def resolve (fs : Fs) (followLast : Bool) (fuel : Nat) (p : Path) : Res :=
 
 /-! ### The operations main.rs uses -/
 
+/-- Result of `fs::canonicalize`, as far as main.rs distinguishes. -/
+inductive Canon where
+  | ok (p : Path)
+  /-- `Err(e)` with `e.kind() == ErrorKind::NotFound` -/
+  | notFound
+  /-- any other `Err` (too many levels of symbolic links, not a directory) -/
+  | otherError
+  deriving DecidableEq, Repr
+
 /-- `fs::canonicalize`: the absolute link-free path of an existing entry. -/
-def canonicalize (fs : Fs) (fuel : Nat) (p : Path) : Option Path :=
+def canonicalize (fs : Fs) (fuel : Nat) (p : Path) : Canon :=
   match resolve fs true fuel p with
-  | .found loc _ => some ⟨true, loc⟩
-  | _ => none
+  | .found loc _ => .ok ⟨true, loc⟩
+  | .missing _ _ => .notFound
+  | .error .noent => .notFound
+  | .error _ => .otherError
 
 /-- `fs::metadata(p)` then `.is_file()`; `none` = `Err`. -/
 def metadataIsFile (fs : Fs) (fuel : Nat) (p : Path) : Option Bool :=
@@ -179,7 +202,16 @@ def create (fs : Fs) (fuel : Nat) (p : Path) : Fs × Option Handle :=
   | .missing d n =>
     let i := freshIno fs
     ({ fs with ents := mset (d ++ [n]) (.file i) fs.ents, data := mset i [] fs.data }, some (.ino i))
-  | .error => (fs, none)
+  | .error _ => (fs, none)
+
+/-- `OpenOptions::new().write(true).create_new(true).open(p)`: open(O_WRONLY|O_CREAT|O_EXCL). Fails
+(EEXIST) if the name has ANY entry — a link in final position is not followed, dangling or not. -/
+def createNew (fs : Fs) (fuel : Nat) (p : Path) : Fs × Option Handle :=
+  match resolve fs false fuel p with
+  | .missing d n =>
+    let i := freshIno fs
+    ({ fs with ents := mset (d ++ [n]) (.file i) fs.ents, data := mset i [] fs.data }, some (.ino i))
+  | _ => (fs, none)
 
 /-- `write_all` (`flush` does nothing on a `File`): a regular file under the size limit (all of
 it, or the part that fits and a failure — `Cli.writeLimited`); the device accepts nothing. -/
@@ -196,7 +228,7 @@ def renameTarget (fs : Fs) (fuel : Nat) (p : Path) : Option Loc :=
   | .found _ .dir => none                             -- EISDIR
   | .found l _ => some l
   | .missing d n => some (d ++ [n])
-  | .error => none
+  | .error _ => none
 
 /-- `fs::rename(src, dst)` for a source that is not a directory. Atomic: the destination entry
 is the old one or the new one. -/
@@ -234,26 +266,34 @@ def writeFile (f : Cli.Faults) (fs : Fs) (fuel : Nat) (p : Path) (bytes : List N
   | (fs1, none) => (fs1, false)
   | (fs1, some h) => write f fs1 h bytes
 
-/-- The last three statements of `write_all_or_nothing`:
+/-- From the creation of the temporary file to the end of `write_all_or_nothing`:
 ```
-let result = write(&tmp, bytes).and_then(|()| fs::rename(&tmp, &dest));
+let mut file = fs::OpenOptions::new().write(true).create_new(true).open(&tmp)?;
+let result = file.write_all(bytes).and_then(|()| file.flush()).and_then(|()| fs::rename(&tmp, &dest));
 if result.is_err() { let _ = fs::remove_file(&tmp); }
 result
 ``` -/
 def replaceVia (f : Cli.Faults) (fuel : Nat) (fs : Fs) (tmp dest : Path) (bytes : List Nat) : Fs × Bool :=
-  let r1 := writeFile f fs fuel tmp bytes
-  let r2 := if r1.2 then rename f r1.1 fuel tmp dest else (r1.1, false)
-  if r2.2 then (r2.1, true) else ((removeFile r2.1 fuel tmp).1, false)
+  match createNew fs fuel tmp with
+  | (fs1, none) => (fs1, false)           -- `?`: nothing has been created, nothing is removed
+  | (fs1, some h) =>
+    let r1 := write f fs1 h bytes
+    let r2 := if r1.2 then rename f r1.1 fuel tmp dest else (r1.1, false)
+    if r2.2 then (r2.1, true) else ((removeFile r2.1 fuel tmp).1, false)
 
 /-- `write_all_or_nothing(dest, bytes)`, line by line. -/
 def writeAllOrNothingP (f : Cli.Faults) (fuel pid : Nat) (fs : Fs) (dest : Path) (bytes : List Nat) :
     Fs × Bool :=
-  -- let dest = fs::canonicalize(dest).unwrap_or(dest.to_path_buf());
-  let dest := (canonicalize fs fuel dest).getD dest
-  -- if fs::metadata(&dest).is_ok_and(|meta| !meta.is_file()) { return write(&dest, bytes); }
-  if metadataIsFile fs fuel dest = some false then writeFile f fs fuel dest bytes
-  -- let tmp = dest.with_file_name(format!(".lace-tmp{}", std::process::id()));
-  else replaceVia f fuel fs (withFileName dest (tmpName pid)) dest bytes
+  -- let dest = match fs::canonicalize(dest) { Ok(resolved) => resolved,
+  --   Err(err) if err.kind() == NotFound => dest.to_path_buf(), Err(err) => return Err(err) };
+  match canonicalize fs fuel dest with
+  | .otherError => (fs, false)
+  | c =>
+    let dest := match c with | .ok resolved => resolved | _ => dest
+    -- if fs::metadata(&dest).is_ok_and(|meta| !meta.is_file()) { return write(&dest, bytes); }
+    if metadataIsFile fs fuel dest = some false then writeFile f fs fuel dest bytes
+    -- let tmp = dest.with_file_name(format!(".lace-tmp{}", std::process::id()));
+    else replaceVia f fuel fs (withFileName dest (tmpName pid)) dest bytes
 
 /-- The `Compile` arm on the path-level file system: assemble and emit everything first, then
 `write_all_or_nothing`. Returns exit status and file system. -/
@@ -262,6 +302,31 @@ def compileP (f : Cli.Faults) (fuel pid : Nat) (p : Cli.Parsed) (fs : Fs) (dest 
   | none => (1, fs)
   | some (orig, words) =>
     let r := writeAllOrNothingP f fuel pid fs dest (Cli.objBytes orig words)
+    if r.2 then (0, r.1) else (1, r.1)
+
+/-! ### `write_all_or_nothing` before the fixes cb35643 / 2214b6f
+
+Kept to state the two defects the model exposed (`Props/C08Paths.lean`, `…_before_fix`): the
+temporary file was opened with `File::create` (follows links, truncates), and ANY failure of
+`canonicalize` made the path as given the destination. -/
+
+def replaceViaBeforeFix (f : Cli.Faults) (fuel : Nat) (fs : Fs) (tmp dest : Path) (bytes : List Nat) : Fs × Bool :=
+  let r1 := writeFile f fs fuel tmp bytes
+  let r2 := if r1.2 then rename f r1.1 fuel tmp dest else (r1.1, false)
+  if r2.2 then (r2.1, true) else ((removeFile r2.1 fuel tmp).1, false)
+
+def writeAllOrNothingBeforeFix (f : Cli.Faults) (fuel pid : Nat) (fs : Fs) (dest : Path) (bytes : List Nat) :
+    Fs × Bool :=
+  -- let dest = fs::canonicalize(dest).unwrap_or(dest.to_path_buf());
+  let dest := match canonicalize fs fuel dest with | .ok resolved => resolved | _ => dest
+  if metadataIsFile fs fuel dest = some false then writeFile f fs fuel dest bytes
+  else replaceViaBeforeFix f fuel fs (withFileName dest (tmpName pid)) dest bytes
+
+def compilePBeforeFix (f : Cli.Faults) (fuel pid : Nat) (p : Cli.Parsed) (fs : Fs) (dest : Path) : Nat × Fs :=
+  match Cli.assembleOk p with
+  | none => (1, fs)
+  | some (orig, words) =>
+    let r := writeAllOrNothingBeforeFix f fuel pid fs dest (Cli.objBytes orig words)
     if r.2 then (0, r.1) else (1, r.1)
 
 /-! ### Observations -/
